@@ -220,8 +220,16 @@ func (n *Net) roundTrip(m *Msg) {
 		n.fail(m, "request lost")
 	default:
 		d := n.delay(from, dst.ID)
+		fifo := n.c.Cfg.FifoIS && m.Kind == KindIS
+		if fifo {
+			// Not before the previous InstallSnapshot request to the same node.
+			if at := s.Now() + d; at <= dst.lastISAt {
+				d = dst.lastISAt + 1000 - s.Now()
+			}
+			dst.lastISAt = s.Now() + d
+		}
 		s.After(d, func() { n.deliver(m) })
-		if !n.prompt(from, dst.ID) && n.DupPm > 0 && n.rng.Intn(1000) < n.DupPm {
+		if !fifo && !n.prompt(from, dst.ID) && n.DupPm > 0 && n.rng.Intn(1000) < n.DupPm {
 			n.Stats.Duplicated++
 			g := m.cloneRequest()
 			g.Ghost = true
@@ -236,7 +244,7 @@ func (n *Net) roundTrip(m *Msg) {
 func (n *Net) deliver(m *Msg) {
 	s := n.c.Sim
 	dst := n.c.nodeByAddr(m.To)
-	if dst == nil || dst.Inc == nil || !dst.Inc.Tr.running {
+	if dst == nil || dst.Inc == nil || dst.Inc.Tr == nil || !dst.Inc.Tr.running {
 		n.Stats.PeerDown++
 		n.fail(m, "peer down")
 		return
@@ -248,7 +256,15 @@ func (n *Net) deliver(m *Msg) {
 	}
 	inc := dst.Inc
 	n.Stats.Delivered++
-	if !m.Ghost {
+	fifo := n.c.Cfg.FifoIS && m.Kind == KindIS
+	if fifo {
+		if inc.isBusy {
+			inc.isQueue = append(inc.isQueue, m)
+			return
+		}
+		inc.isBusy = true
+	}
+	if !m.Ghost && !fifo {
 		// Remember for stale re-delivery.
 		if n.RedeliverPm > 0 && n.rng.Intn(1000) < n.RedeliverPm {
 			g := m.cloneRequest()
@@ -300,6 +316,19 @@ func (n *Net) handle(inc *Incarnation, m *Msg) {
 	}
 	if simrt.Dead() {
 		return
+	}
+	if n.c.Cfg.FifoIS && m.Kind == KindIS {
+		// Start the next queued InstallSnapshot request, if any.
+		inc.isBusy = false
+		if len(inc.isQueue) > 0 {
+			next := inc.isQueue[0]
+			inc.isQueue = inc.isQueue[1:]
+			inc.isBusy = true
+			next.handled++
+			n.c.Sim.GoProc(inc.Proc, fmt.Sprintf("%s/h%s#%d", inc.Name(), kindName[next.Kind], next.ID), func() {
+				n.handle(inc, next)
+			})
+		}
 	}
 	rec.handlerEnd(inc, m, h, err)
 	if m.Ghost || m.answered {
